@@ -67,10 +67,12 @@ UNIT_TRUSTED["table_rpki"] = [
 ]
 
 UNIT_TRUSTED["table_policy"] = [
-    "Statement::apply (conditions + actions of one statement, 190 lines of attribute surgery) is NOT verified: it enters as an uninterpreted deterministic function stmt_step of its arguments (assumed: it is a function, i.e. has no hidden state)",
-    "packet::bgp::AsPathIter modelled as the sequence of segments it yields (aspath_segments, uninterpreted; a segment may be empty); R11 helpers vx_aspath_segments / vx_aspath_next; precondition attr_binary(attr) is Some (AsPathIter::new unwraps it)",
-    "regex::Regex::is_match is an uninterpreted function of pattern and text; R12 helpers vx_any / vx_all (verified loops)",
-    "NOT under contract: Condition::evalute (prefix sets via ip_network_table longest_match, neighbour / community / RPKI conditions), the actions, and the PolicyTable CRUD 'still referenced cannot be deleted' clause (rests on Arc::strong_count, outside any contract)",
+    "packet::bgp::AsPathIter modelled as the sequence of segments it yields (aspath_segments, uninterpreted; a segment may be empty); R11 helpers vx_aspath_segments / vx_aspath_next / vx_aspath_first; precondition attr_binary(attr) is Some (AsPathIter::new unwraps it)",
+    "regex::Regex::is_match is an uninterpreted function of pattern and text; R12 helpers vx_any / vx_all / vx_find (verified loops); VxIter: `X.iter()` rewritten to a wrapper value whose `.all` / `.any` methods are those verified loops (the method named in the code decides which contract applies)",
+    "attrs_wf — precondition of Condition::evalute, Statement::apply, Policy::apply, PolicyAssignment::apply and preserved by them: an attribute with type code 2 holds a byte string (true of what Attribute::decode and the API conversion build; as_path_* and AsPathIter::new unwrap it)",
+    "Condition::evalute: ip_network_table_deps_treebitmap::IpLookupTable modelled as a finite map (network address, length) -> value (lt4_view / lt6_view, uninterpreted); R11 helpers vx_lt4/6_matches_any (assumed: `matches(ip)` yields exactly the stored prefixes containing ip) and vx_lt4/6_longest_match (assumed: the longest of them; only used if the code calls it); 'contains' is defined on address octets (lt_masked_octet); packet::IpNet::contains uninterpreted here (decided by the C16 Kani harnesses); communities_from_attr / ext_ / large_ and the text forms of community values (`format!`) uninterpreted (vx_comm_strs / vx_ecomm_strs / vx_lcomm_strs outlined verbatim); the RPKI, route-type, afi-safi-in and next-hop arms are outlined verbatim (R11) as uninterpreted functions of what they read (Source identity is part of a Source's abstract value) — they are outside the property's text; derive(PartialEq) on MatchOption structural; #[verifier::loop_isolation(false)]",
+    "Statement::apply: Arc::make_mut as a `&mut` into the vector the Arc owns afterwards (vx_arc_make_mut; copy-on-write invisible, Arc = value); Vec::retain / into_iter().filter().collect() keep exactly the elements satisfying the (verified) predicate, in order; Vec::contains / clone / extend_from_slice on u32, [u8; 8], (u32, u32, u32) structural (vx_contains / vx_vec_clone / vx_vec_extend); Option::copied, i64::saturating_add, i64::clamp as their std definitions; Attribute::new_with_value returns a value attribute with that code for codes 1, 4, 5 (canonical-flags table: Kani harness c05_canonical_flags_table); communities_to_attr / ext_ / large_ and Attribute::as_path_prepend / as_path_prepend_confed / empty_as_path uninterpreted with their type codes (the byte-level prepend functions are verified in unit packet_aspath); IpAddr and bgp::Nexthop mirrored transparently; rlimit(200) (about 20 s)",
+    "NOT under contract: the regular-expression members of an as-path set (known finding F-C14-4), prefix / neighbour sets with the ALL option (rejected by add_statement), the byte layout of community attributes, and the PolicyTable CRUD 'still referenced cannot be deleted' clause",
 ]
 
 UNIT_TRUSTED["daemon_export"] = [
@@ -120,7 +122,7 @@ UNIT_TRUSTED["packet_nlri"] = [
 ]
 
 # minimum number of functions that must produce obligations / of must-fail twins that must run
-FLOORS = {"daemon_fsm": 30, "daemon_gr": 4, "daemon_peer_tx": 9, "table_cmp": 20, "packet_validate": 1, "packet_parse": 1, "table_rpki": 5, "table_policy": 6, "daemon_export": 11, "packet_bmp": 6, "packet_mrt": 8, "packet_aspath": 11, "packet_encode": 4, "packet_nlri": 22}
+FLOORS = {"daemon_fsm": 30, "daemon_gr": 4, "daemon_peer_tx": 9, "table_cmp": 20, "packet_validate": 1, "packet_parse": 1, "table_rpki": 5, "table_policy": 8, "daemon_export": 11, "packet_bmp": 6, "packet_mrt": 8, "packet_aspath": 11, "packet_encode": 4, "packet_nlri": 22}
 TWIN_FLOORS = {"daemon_fsm": 8, "daemon_gr": 3, "daemon_peer_tx": 2, "table_cmp": 4, "packet_validate": 1, "packet_parse": 1, "table_rpki": 1, "table_policy": 1, "daemon_export": 1, "packet_bmp": 1, "packet_mrt": 1, "packet_aspath": 1, "packet_encode": 1, "packet_nlri": 1}
 
 PLAN = {
